@@ -158,3 +158,42 @@ pub proof fn lemma_same_fields_same_text(v: Version, w: Version)
     lemma_same_ids_text(v.pre_release@, w.pre_release@, v.pre_release@.len() as int, '-');
     lemma_same_ids_text(v.build@, w.build@, v.build@.len() as int, '+');
 }
+
+// ===================== C18, the text half: a version built from a tuple prints as `a.b.c` / `a.b.c-d` and that text parses to it ==========
+// (what `Version::from` returns is stated by its contract: key(r) == k3(a, b, c) resp. k4(a, b, c, [Numeric(d)]), no build metadata)
+pub proof fn lemma_c18_tuple_prints_and_parses(v: Version, a: u64, b: u64, c: u64)
+    requires key(v) == k3(a as int, b as int, c as int), v.build@.len() == 0, a <= MAX_SAFE_INTEGER, b <= MAX_SAFE_INTEGER, c <= MAX_SAFE_INTEGER,
+    ensures
+        ver_text(v) == dec_text(a as nat) + ch1('.') + dec_text(b as nat) + ch1('.') + dec_text(c as nat),
+        ref_parse(ver_text(v)) matches Some(s) && version_is(v, s) && s.major == a && s.minor == b && s.patch == c && s.pre.len() == 0 && s.build.len() == 0,
+{
+    assert(v.pre_release@.len() == 0);
+    assert(wf_version(v));
+    lemma_c12_printed_text_reads_back(v);
+    assert(ver_text(v) =~= dec_text(a as nat) + ch1('.') + dec_text(b as nat) + ch1('.') + dec_text(c as nat));
+}
+pub proof fn lemma_c18_quadruple_prints_and_parses(v: Version, a: u64, b: u64, c: u64, d: u64)
+    requires key(v).major == a, key(v).minor == b, key(v).patch == c, key(v).pre =~= seq![Identifier::Numeric(d)], v.build@.len() == 0,
+        a <= MAX_SAFE_INTEGER, b <= MAX_SAFE_INTEGER, c <= MAX_SAFE_INTEGER,
+    ensures
+        ver_text(v) == dec_text(a as nat) + ch1('.') + dec_text(b as nat) + ch1('.') + dec_text(c as nat) + ch1('-') + dec_text(d as nat),
+        ref_parse(ver_text(v)) matches Some(s) && version_is(v, s) && s.major == a && s.minor == b && s.patch == c && s.pre == seq![ISpec::Num(d as nat)] && s.build.len() == 0,
+{
+    broadcast use ax_dec_text;
+    assert(v.pre_release@[0] == Identifier::Numeric(d));
+    assert(wf_version(v));
+    lemma_c12_printed_text_reads_back(v);
+    assert(ids_text(v.pre_release@, 0, '-') =~= Seq::<char>::empty());
+    assert(ids_text(v.pre_release@, 1, '-') =~= ch1('-') + dec_text(d as nat));
+    assert(ver_text(v) =~= dec_text(a as nat) + ch1('.') + dec_text(b as nat) + ch1('.') + dec_text(c as nat) + ch1('-') + dec_text(d as nat));
+    let s = ref_parse(ver_text(v)).unwrap();
+    assert(ident_is(v.pre_release@[0], s.pre[0]));
+    assert(s.pre =~= seq![ISpec::Num(d as nat)]) by {
+        lemma_ident_text_reads_back(v.pre_release@[0]);
+        lemma_ver_text_is_canonical(v);
+        lemma_texts_read_back(v.pre_release@);
+        lemma_texts_read_back(v.build@);
+        lemma_c05_canonical_accepted(dec_text(v.major as nat), dec_text(v.minor as nat), dec_text(v.patch as nat), texts(v.pre_release@), texts(v.build@));
+        assert(classify_all(texts(v.pre_release@))[0] == classify(dec_text(d as nat)));
+    }
+}
